@@ -120,8 +120,8 @@ func c28Serve(conn net.Conn) {
 
 func c28Gen(rng *rand.Rand, tier string) []Case {
 	var out []Case
-	n := 9
-	iters := 60
+	n := 6
+	iters := 40
 	if tier == "thorough" {
 		n = 90
 		iters = 200
@@ -239,7 +239,7 @@ func c28Race(kind, end string, iters int, seed int64) string {
 func init() {
 	register(&Prop{
 		ID: "C28",
-		Rule: "the real RPC client against an in-process fake agent that floods stream/monitor/query records (and keeps flooding for 3 ms after a stop request); per case 60 (thorough 200) subscribe→random delay→Stop or Close iterations; " +
+		Rule: "the real RPC client against an in-process fake agent that floods stream/monitor/query records (and keeps flooding for 3 ms after a stop request); per case 40 (thorough 200) subscribe→random delay→Stop or Close iterations; " +
 			"every case is non-trivial (records race with Stop/Close); distinct = distinct (kind, end, seed)",
 		Gen:     c28Gen,
 		Exec:    c28Exec,
